@@ -97,21 +97,8 @@ def check(ck):
     # ---- C12.5 containment ---------------------------------------------------------------------------------------
     common.import_rules(ck, c02, {"C02.2": "C12.5"})
     common.import_rules(ck, c17, {"C17.3": "C12.5"})
-    def catches_base(fn, call_pred):
-        """a try of fn whose body contains a call satisfying call_pred and that has a bare / BaseException handler"""
-        for t in ast.walk(fn.node):
-            if isinstance(t, ast.Try) and any(isinstance(c, ast.Call) and call_pred(c) for st_ in t.body for c in ast.walk(st_)):
-                if any(h.type is None or dump(h.type) == "BaseException" for h in t.handlers):
-                    return True
-        return False
-    fdis = prog.func(SRV, DISP + "._dispatch")
+    layers = common.base_exception_layers(prog)
     fpo = prog.func(SRV, "SimpleJSONRPCRequestHandler.do_POST")
-    fsd = prog.func(SRV, DISP + "._marshaled_single_dispatch")
-    layers = {
-        "_dispatch (around the method call)": catches_base(fdis, lambda c: isinstance(c.func, ast.Name) and c.func.id == "func"),
-        "_marshaled_single_dispatch (around the dispatch)": catches_base(fsd, lambda c: call_name(c) in ("_dispatch", "dispatch_method")),
-        "do_POST (around the whole request)": catches_base(fpo, lambda c: call_name(c) == "_marshaled_dispatch"),
-    }
     ck.require(any(layers.values()), "C12.5", "%s: a layer between the method and socketserver catches BaseException" % SRV,
                "bare except in: %s" % [k for k, v in layers.items() if v],
                "no handler between the registered method and socketserver catches a non-Exception BaseException (SystemExit, KeyboardInterrupt "
